@@ -12,6 +12,9 @@ use super::html5elements::Html5Elements;
 use super::{Output, OutputToken, Pretty};
 
 pub(crate) struct Html5Serializer<'a, N: Normalizer> {
+    // elements for which a namespace frame was pushed only to hold the
+    // default namespace declaration we generate for them
+    generated_default_frames: Vec<Node>,
     xot: &'a Xot,
     html5_elements: &'a Html5Elements,
     cdata_section_names: &'a [NameId],
@@ -60,6 +63,7 @@ impl<'a, N: Normalizer> Html5Serializer<'a, N> {
         let extra_declarations = xot.namespaces_in_scope(node).collect();
         let fullname_serializer = FullnameSerializer::new(xot, extra_declarations);
         Self {
+            generated_default_frames: Vec::new(),
             xot,
             html5_elements,
             cdata_section_names,
@@ -139,8 +143,15 @@ impl<'a, N: Normalizer> Html5Serializer<'a, N> {
                     .must_be_serialized_unprefixed(namespace_id)
                     && !self.fullname_serializer.has_empty_prefix(namespace_id)
                 {
-                    // add the empty prefix for the namespace
-                    self.fullname_serializer.add_empty_prefix(namespace_id);
+                    // add the empty prefix for the namespace; this declaration
+                    // is only in scope for this element and its content
+                    if self.xot.has_namespace_declarations(node) {
+                        self.fullname_serializer.add_empty_prefix(namespace_id);
+                    } else {
+                        self.fullname_serializer
+                            .push(vec![(self.xot.empty_prefix(), namespace_id)]);
+                        self.generated_default_frames.push(node);
+                    }
                     // we also need to serialize the additional xmlns
                     let local_name = self.xot.local_name_str(element.name_id);
                     let namespace_uri = self.xot.namespace_str(namespace_id);
@@ -182,8 +193,12 @@ impl<'a, N: Normalizer> Html5Serializer<'a, N> {
                         ),
                     }
                 };
+                let generated_frame = self.generated_default_frames.last() == Some(&node);
+                if generated_frame {
+                    self.generated_default_frames.pop();
+                }
                 self.fullname_serializer
-                    .pop(self.xot.has_namespace_declarations(node));
+                    .pop(generated_frame || self.xot.has_namespace_declarations(node));
                 r
             }
             Prefix(prefix_id, namespace_id) => {
